@@ -180,8 +180,14 @@ Definition prov6 (slot : nat) (isreq : bool) (r : option (nat * bool)) (m : im) 
   end.
 
 Definition fwd_discover (slot : nat) (m : im) : im := let '(r, m1) := resolve4 slot m in snd (prov4 slot false r m1).
-(* forwardPending*/forwardLatePending*: the ACK of a replayed REQUEST is sent but handleAck is not called *)
-Definition fwd_request_noack (slot : nat) (m : im) : im := let '(r, m1) := resolve4 slot m in snd (prov4 slot true r m1).
+(* forwardPending*/forwardLatePending*: since b04c868 the ACK of a replayed REQUEST is recorded through
+   recordAck -> handleAck as well, unless the session is closing *)
+Definition fwd_request_noack (slot : nat) (m : im) : im :=
+  let '(r, m1) := resolve4 slot m in
+  match prov4 slot true r m1 with
+  | (Some id, m2) => if iclosing (jms m2) then m2 else handle_ack slot id m2
+  | (None, m2) => m2
+  end.
 Definition fwd_request (slot : nat) (m : im) : im :=
   let '(r, m1) := resolve4 slot m in
   match prov4 slot true r m1 with
